@@ -300,31 +300,31 @@ func checkCorrelateGuards(p *Prog, r *Report) {
 				}
 			}
 			// the element that is written is the one of the SAME NAME in the existing record: found by a lookup with the name
-		// the incoming value was looked up under (records of the two nodes need not order their elements alike)
-		lookupOf := func(v ssa.Value) *ssa.Call {
-			if bv, ok := bind[v]; ok {
-				v = bv
+			// the incoming value was looked up under (records of the two nodes need not order their elements alike)
+			lookupOf := func(v ssa.Value) *ssa.Call {
+				if bv, ok := bind[v]; ok {
+					v = bv
+				}
+				ex, ok := v.(*ssa.Extract)
+				if !ok || ex.Index != 0 {
+					return nil
+				}
+				lc, ok := ex.Tuple.(*ssa.Call)
+				if !ok || !lc.Call.IsInvoke() || lc.Call.Method.Name() != "GetInfoElementWithValue" {
+					return nil
+				}
+				return lc
 			}
-			ex, ok := v.(*ssa.Extract)
-			if !ok || ex.Index != 0 {
-				return nil
+			dst := lookupOf(c.Call.Value)
+			var src *ssa.Call
+			if gv, ok := val.(*ssa.Call); ok && gv.Call.IsInvoke() {
+				src = lookupOf(gv.Call.Value)
 			}
-			lc, ok := ex.Tuple.(*ssa.Call)
-			if !ok || !lc.Call.IsInvoke() || lc.Call.Method.Name() != "GetInfoElementWithValue" {
-				return nil
-			}
-			return lc
-		}
-		dst := lookupOf(c.Call.Value)
-		var src *ssa.Call
-		if gv, ok := val.(*ssa.Call); ok && gv.Call.IsInvoke() {
-			src = lookupOf(gv.Call.Value)
-		}
-		sameName := dst != nil && src != nil && len(dst.Call.Args) == 1 && len(src.Call.Args) == 1 && (dst.Call.Args[0] == src.Call.Args[0] || sameValue(dst.Call.Args[0], src.Call.Args[0]) || (bind[dst.Call.Args[0]] != nil && bind[dst.Call.Args[0]] == bind[src.Call.Args[0]]))
-		r.Check(sameName, "R-SIBLING.correlate-by-name", fmt.Sprintf("pkg/intermediate.correlateRecords: %s writes the element of the same name", c.Call.Method.Name()), p.instrPos(in),
-			"existing.GetInfoElementWithValue(name) with the name the incoming value was read under",
-			"the element written in the existing record is not found by the field's name (by position, cached, another name): when the two nodes order their elements differently the value lands in another field and the named field stays empty", true)
-		r.Check(neq && bad == "", "R-SIBLING.correlate", fmt.Sprintf("pkg/intermediate.correlateRecords: %s guarded by a non-empty test", c.Call.Method.Name()), p.instrPos(in),
+			sameName := dst != nil && src != nil && len(dst.Call.Args) == 1 && len(src.Call.Args) == 1 && (dst.Call.Args[0] == src.Call.Args[0] || sameValue(dst.Call.Args[0], src.Call.Args[0]) || (bind[dst.Call.Args[0]] != nil && bind[dst.Call.Args[0]] == bind[src.Call.Args[0]]))
+			r.Check(sameName, "R-SIBLING.correlate-by-name", fmt.Sprintf("pkg/intermediate.correlateRecords: %s writes the element of the same name", c.Call.Method.Name()), p.instrPos(in),
+				"existing.GetInfoElementWithValue(name) with the name the incoming value was read under",
+				"the element written in the existing record is not found by the field's name (by position, cached, another name): when the two nodes order their elements differently the value lands in another field and the named field stays empty", true)
+			r.Check(neq && bad == "", "R-SIBLING.correlate", fmt.Sprintf("pkg/intermediate.correlateRecords: %s guarded by a non-empty test", c.Call.Method.Name()), p.instrPos(in),
 				"copied iff the incoming value differs from the zero value", "the copy is guarded by an ordering test ("+bad+") or by no inequality at all: some non-empty values (e.g. negative ones) are treated as empty and the merged record is exported without them", true)
 		})
 	}
